@@ -542,6 +542,9 @@ func visitInstr(fr *frame, instr ssa.Instruction) continuation {
 		fr.env[instr] = makeMap(instr.Type().Underlying().(*types.Map).Key(), 0)
 
 	case *ssa.Range:
+		if m, ok := fr.get(instr.X).(*hashmap); ok && m != nil && i.sched != nil && i.cfg.Race && i.race != nil {
+			i.race.access(fr, m, false)
+		}
 		fr.env[instr] = fr.rangeIter(fr.get(instr.X), instr.X.Type())
 
 	case *ssa.Next:
@@ -571,12 +574,20 @@ func visitInstr(fr *frame, instr ssa.Instruction) continuation {
 		fr.env[instr] = fr.index(fr.get(instr.X), fr.get(instr.Index))
 
 	case *ssa.Lookup:
-		fr.env[instr] = fr.lookup(instr, fr.get(instr.X), fr.get(instr.Index))
+		x := fr.get(instr.X)
+		if m, ok := x.(*hashmap); ok && m != nil && i.sched != nil && i.cfg.Race && i.race != nil {
+			// a map is one object for the race check, as for Go's detector: lookups and range read it, updates and delete write it
+			i.race.access(fr, m, false)
+		}
+		fr.env[instr] = fr.lookup(instr, x, fr.get(instr.Index))
 
 	case *ssa.MapUpdate:
 		m, _ := fr.get(instr.Map).(*hashmap)
 		if m == nil {
 			panic(i.rtPanic("assignment to entry in nil map"))
+		}
+		if i.sched != nil && i.cfg.Race && i.race != nil {
+			i.race.access(fr, m, true)
 		}
 		i.mapInsert(m, fr.mapKey(fr.get(instr.Key)), fr.get(instr.Value))
 
